@@ -362,9 +362,14 @@ func (server *Server) readRequestBody(ctx *Context) (err error) {
 func (server *Server) callService(ctx *Context) {
 	var err error
 	if ctx.upgrade.Stream == openStream {
+		// acknowledge first: the handler's first message must not overtake the
+		// acknowledgement of the open request
+		f, args := ctx.f, ctx.args
+		server.sendResponse(ctx)
 		go func() {
-			ctx.f.ValueCall(ctx.args)
+			f.ValueCall(args)
 		}()
+		return
 	} else if ctx.upgrade.Stream == streaming {
 		if streamCtx := ctx.ctx; streamCtx != nil {
 			value := GetBuffer(len(ctx.value))
